@@ -43,3 +43,14 @@ struct LNode {
 using LList = frg::intrusive_list<LNode, frg::locate_member<LNode, frg::default_list_hook<LNode>, &LNode::hook>>;
 }
 template struct frg::_list::intrusive_list<wit::LNode, frg::locate_member<wit::LNode, frg::default_list_hook<wit::LNode>, &wit::LNode::hook>>;
+
+// the hidden-friend swaps, used directly (they must be analysed whether or not a member happens to call them)
+namespace wit {
+inline void use_swaps(frg::small_vector<Elem, 4, Alloc> &a, frg::small_vector<Elem, 4, Alloc> &b,
+		frg::vector<Elem, Alloc> &c, frg::vector<Elem, Alloc> &d,
+		frg::dyn_array<Elem, Alloc> &e, frg::dyn_array<Elem, Alloc> &f) {
+	swap(a, b);
+	swap(c, d);
+	swap(e, f);
+}
+}
